@@ -61,6 +61,7 @@ def run(ctx) -> None:
     r07_3(ctx)
     r07_4(ctx)
     r07_5(ctx)
+    r07_6(ctx)
     positive_example(ctx)
     ctx.floor("underlying_uses", 5)
     ctx.floor("positive_example_fired", 1)
@@ -396,6 +397,11 @@ def r07_4(ctx) -> None:
         v = ctx.vals.expr(u, r.info.get("value"), r)
         ok = ok and bool(v) and all(a[0] == "libinst" and a[1] == ctx.pkg.cls(BORROW_CLASSES[0]).fq for a in v)
     ctx.check(ok, "R07.4", u, rets[0] if rets else "borrow", "borrow() returns a borrowed wrapper on every non-raising path")
+    unwraps = [n for n in own_nodes(u.node) if isinstance(n, ast.Attribute) and (
+        n.attr == "__wrapped__" or (n.attr.startswith("_") and not n.attr.startswith("__")))]
+    ctx.check(not unwraps, "R07.4", u, unwraps[0] if unwraps else "borrow",
+              "borrow() never reaches into an already borrowed / scoped argument (the new handle stays tied to the lifetime "
+              "of the handle it was made from)")
     c = ctx.unit("_core.borrow")
     rets = [n for n in own_nodes(c.node) if isinstance(n, ast.Return)]
     p = c.param_names()[0]
@@ -475,6 +481,33 @@ def _passed_unborrowed(ctx, unit, cfg, name: str) -> None:
         ctx.check(not used, "R07.4", unit, call,
                   f"`{name}` is handed to an owning tool un-borrowed only where it is not used afterwards",
                   node=c, witness="; ".join(f"later use L{m.line}:{m.text()}" for m in used[:3]))
+
+
+def r07_6(ctx) -> None:
+    """A handle's life is ended only through its close coroutine (the one that also redirects
+    asend/athrow): nobody else reaches for the handle's intermediate generator."""
+    ctx.rule("R07.6", "the intermediate generator of a borrowed handle is touched only by the handle's own methods")
+    info = ctx.pkg.cls(BORROW_CLASSES[0])
+    gen_fields = set()
+    for has in (True, False):
+        _init, outs = _init_outcomes(ctx, has)
+        for oc in outs:
+            gen_fields |= {f for f, v in _fields(oc.env).items() if isinstance(v, tuple) and v[:1] in (("gen",), ("gen?",))}
+    own = {id(m.node) for c in [info] + [ctx.pkg.cls(s) for s in BORROW_CLASSES[1:]] for m in c.methods.values()}
+    bad = 0
+    for u in real_units(ctx):
+        top = u
+        while top.parent is not None:
+            top = top.parent
+        if id(top.node) in own:
+            continue
+        for x in own_nodes(u.node):
+            if isinstance(x, ast.Attribute) and x.attr in gen_fields:
+                bad += 1
+                ctx.fail("R07.6", u, x, f"`{norm(x)}` reaches into a borrowed handle's intermediate generator from outside the "
+                         "handle: closing it this way skips the redirection of asend/athrow", line=x.lineno)
+    if not bad:
+        ctx.ok("R07.6", "package", f"no outside access to the handle's generator field(s) {sorted(gen_fields)}")
 
 
 def r07_5(ctx) -> None:
